@@ -65,6 +65,7 @@ type Thread struct {
 	Traces   [][]Acq
 	Inv      []int // step in which the first lock of the call was granted (-1: none yet)
 	Resp     []int // step in which the call returned (-1: not returned)
+	Events   []string // acquisitions "A<mode><lock>" and releases "r<mode><lock>" in program order
 }
 
 type event struct {
@@ -139,6 +140,7 @@ func (s *S) After(m *vsync.RWMutex, write bool) {
 	for i := len(t.held) - 1; i >= 0; i-- {
 		if t.held[i].m == m && t.held[i].write == write {
 			t.held = append(t.held[:i], t.held[i+1:]...)
+			t.Events = append(t.Events, "r"+Acq{s.namer.Name(m), write}.String())
 			return
 		}
 	}
@@ -277,6 +279,7 @@ func (s *S) Step(id int) bool {
 	t.held = append(t.held, t.req)
 	c := t.reqCall
 	t.Traces[c] = append(t.Traces[c], Acq{t.reqID, t.req.write})
+	t.Events = append(t.Events, "A"+Acq{t.reqID, t.req.write}.String())
 	if t.Inv[c] < 0 {
 		t.Inv[c] = s.step
 	}
